@@ -1,14 +1,193 @@
+// coerlint decides structural clauses of the coercion properties C01..C20 by
+// static analysis of /repo's current working tree. See /verif/DESIGN.md.
 package main
 
 import (
+	"encoding/json"
+	"flag"
 	"fmt"
-	"golang.org/x/tools/go/packages"
-	"golang.org/x/tools/go/cfg"
+	"os"
+	"path/filepath"
+	"runtime/debug"
+	"sort"
+	"strconv"
+	"strings"
 )
 
+// PropInfo is the static description of what a property's rules decide.
+type PropInfo struct {
+	ID          string
+	Explanation string
+	NotDecided  []string
+	Assumptions []string
+	Rules       func(r *Run)
+	Thorough    func(r *Run) // extra work in the thorough tier (optional)
+}
+
+var registry = map[string]PropInfo{}
+
+func register(p PropInfo) { registry[p.ID] = p }
+
 func main() {
-	_ = cfg.New
-	cfgp := &packages.Config{Mode: packages.NeedName | packages.NeedFiles | packages.NeedSyntax | packages.NeedTypes | packages.NeedTypesInfo | packages.NeedImports | packages.NeedDeps, Dir: "/repo"}
-	pkgs, err := packages.Load(cfgp, "./...")
-	fmt.Println(len(pkgs), err)
+	prop := flag.String("prop", "", "property id (C01..C20) or 'all'")
+	tier := flag.String("tier", "quick", "quick|thorough")
+	repo := flag.String("repo", "/repo", "repository root")
+	out := flag.String("out", "/verif/evidence", "evidence directory")
+	knownPath := flag.String("known", "/verif/known_findings.json", "known findings file")
+	explain := flag.String("explain", "", "replay file to re-evaluate")
+	dump := flag.String("dump", "", "debug: dump paths of function key")
+	flag.Parse()
+
+	seed := 0
+	if s := os.Getenv("VERIF_SEED"); s != "" {
+		seed, _ = strconv.Atoi(s)
+	}
+	if *explain != "" {
+		os.Exit(doExplain(*explain, *repo, *out, *knownPath))
+	}
+	p, err := Load(*repo)
+	if err != nil {
+		fmt.Println("ERROR: cannot analyse the repository:", err)
+		if *prop != "" && *prop != "all" {
+			fmt.Printf("VIOLATION property=%s replay=%s\n", *prop, "load-failure")
+		}
+		os.Exit(1)
+	}
+	if *dump != "" {
+		dumpPaths(p, *dump)
+		return
+	}
+	known, err := loadKnown(*knownPath)
+	if err != nil {
+		fmt.Println("ERROR: known findings file unreadable:", err)
+		os.Exit(2)
+	}
+	var ids []string
+	if *prop == "all" {
+		for id := range registry {
+			ids = append(ids, id)
+		}
+		sort.Strings(ids)
+	} else {
+		if _, ok := registry[*prop]; !ok {
+			fmt.Println("ERROR: unknown property", *prop)
+			os.Exit(2)
+		}
+		ids = []string{*prop}
+	}
+	code := 0
+	for _, id := range ids {
+		if c := runProp(p, registry[id], *tier, *out, known, seed); c > code {
+			code = c
+		}
+	}
+	os.Exit(code)
+}
+
+func runProp(p *Prog, info PropInfo, tier, out string, known []KnownFinding, seed int) (code int) {
+	r := NewRun(p, info.ID, tier)
+	func() {
+		defer func() {
+			if x := recover(); x != nil {
+				r.Undecided("R0", "analysis-panic", 0, "checker panicked: %v\n%s", x, debug.Stack())
+			}
+		}()
+		info.Rules(r)
+		if tier == "thorough" && info.Thorough != nil {
+			info.Thorough(r)
+		}
+	}()
+	return r.Report(out, known, info, seed)
+}
+
+func doExplain(path, repo, out, knownPath string) int {
+	b, err := os.ReadFile(path)
+	if err != nil {
+		fmt.Println("ERROR:", err)
+		return 2
+	}
+	var o Obligation
+	if err := json.Unmarshal(b, &o); err != nil {
+		fmt.Println("ERROR:", err)
+		return 2
+	}
+	prop := strings.SplitN(o.Rule, "-", 2)[0]
+	info, ok := registry[prop]
+	if !ok {
+		fmt.Println("ERROR: unknown property in replay file:", prop)
+		return 2
+	}
+	p, err := Load(repo)
+	if err != nil {
+		fmt.Println("ERROR:", err)
+		return 1
+	}
+	r := NewRun(p, prop, "quick")
+	info.Rules(r)
+	r.finish()
+	found := false
+	for _, x := range r.Obls {
+		if x.Rule == o.Rule && x.Key == o.Key {
+			found = true
+			fmt.Printf("%s: %s [%s] key=%q\n  %s\n", strings.ToUpper(x.Status), x.Site, x.Rule, x.Key, x.Msg)
+		}
+	}
+	if !found {
+		fmt.Printf("instance rule=%s key=%q not present on the current tree\n", o.Rule, o.Key)
+		return 0
+	}
+	_ = filepath.Join
+	return 0
+}
+
+func dumpPaths(p *Prog, key string) {
+	fn := p.Funcs[key]
+	if fn == nil {
+		fmt.Println("no such function", key)
+		var ks []string
+		for k := range p.Funcs {
+			if strings.Contains(k, key) {
+				ks = append(ks, k)
+			}
+		}
+		sort.Strings(ks)
+		fmt.Println(strings.Join(ks, "\n"))
+		return
+	}
+	fl := p.FlowOf(fn)
+	fmt.Println(fl.CFG.Format(p.Fset))
+	paths, ok := fl.Paths()
+	fmt.Println("paths:", len(paths), "complete:", ok)
+	for i, pa := range paths {
+		fmt.Printf("-- path %d exit=%d\n", i, pa.Exit)
+		for _, e := range pa.Ev {
+			s := ""
+			switch e.Kind {
+			case EvCall, EvDefer, EvGo:
+				s = ExprStr(e.Call.Fun) + " => " + CalleeKey(e)
+			case EvAssign:
+				for _, l := range e.Lhs {
+					s += ExprStr(l) + ","
+				}
+				s += " " + e.Tok.String() + " "
+				for _, x := range e.Rhs {
+					s += ExprStr(x) + ","
+				}
+			case EvBranch:
+				s = fmt.Sprintf("%s tag=%s taken=%v", ExprStr(e.Cond), ExprStr(e.Tag), e.Taken)
+			case EvSend, EvRecv:
+				s = ExprStr(e.Chan)
+			case EvRange, EvSelect, EvTypeCase:
+				s = fmt.Sprintf("taken=%v", e.Taken)
+			}
+			d := ""
+			if e.Deferred {
+				d = " [deferred]"
+				if e.Maybe {
+					d = " [deferred?]"
+				}
+			}
+			fmt.Printf("   %s %s %s%s\n", p.Pos(e.Pos), e.Kind, s, d)
+		}
+	}
 }
